@@ -118,44 +118,6 @@ def showResult (f : Fmt) (img : Img) (intLine : Bool) : String :=
     let bytes := encodeMasked f img intLine
     s!"ok {bytes.size} {hexOf (fnv bytes).toNat 16}"
 
-/-- the pinned encoder table (uncompressed.rs / sub_sampled.rs / bi_planar.rs), in source order -/
-def encoderTable (name : String) : List Enc :=
-  let g8 : Color := ⟨.gray, .u8⟩
-  let uni := encUni
-  match name with
-  | "R8G8B8_UNORM" => [encCopy ⟨.rgb, .u8⟩, encConv .u8, uni, encDither DITHER_COLOR]
-  | "B8G8R8_UNORM" => [encConv .u8, uni, encDither DITHER_COLOR]
-  | "R8G8B8A8_UNORM" => [encCopy ⟨.rgba, .u8⟩, encConv .u8, uni, encDither DITHER_ALL]
-  | "R8G8B8A8_SNORM" => [encConv .u8 true, uni, encDither DITHER_ALL]
-  | "B8G8R8A8_UNORM" => [encConv .u8, uni, encDither DITHER_ALL]
-  | "B8G8R8X8_UNORM" => [encConv .u8, uni, encDither DITHER_COLOR]
-  | "B5G6R5_UNORM" => [uni, encDither DITHER_COLOR]
-  | "B5G5R5A1_UNORM" | "B4G4R4A4_UNORM" | "A4B4G4R4_UNORM" => [uni, encDither DITHER_ALL]
-  | "R8_UNORM" => [encCopy g8, encConv .u8, uni, encDither DITHER_COLOR]
-  | "R8_SNORM" => [encConv .u8 true, uni, encDither DITHER_COLOR]
-  | "R8G8_UNORM" | "R8G8_SNORM" => [encUni EXACT_U8, encDither DITHER_COLOR]
-  | "A8_UNORM" => [encCopy ⟨.alpha, .u8⟩, encConv .u8, uni, encDither DITHER_ALPHA]
-  | "R16_UNORM" => [encCopy ⟨.gray, .u16⟩, encConv .u16, uni, encDither DITHER_COLOR]
-  | "R16_SNORM" => [encConv .u16 true, uni, encDither DITHER_COLOR]
-  | "R16G16_UNORM" | "R16G16_SNORM" => [encUni EXACT_U16, encDither DITHER_COLOR]
-  | "R16G16B16A16_UNORM" => [encCopy ⟨.rgba, .u16⟩, encConv .u16, uni, encDither DITHER_ALL]
-  | "R16G16B16A16_SNORM" => [encConv .u16 true, uni, encDither DITHER_ALL]
-  | "R10G10B10A2_UNORM" | "R10G10B10_XR_BIAS_A2_UNORM" => [uni, encDither DITHER_ALL]
-  | "R11G11B10_FLOAT" => [uni, encDither DITHER_COLOR]
-  | "R9G9B9E5_SHAREDEXP" => [encUni EXACT_U8, encDither DITHER_COLOR]
-  | "R16_FLOAT" | "R16G16_FLOAT" => [encUni EXACT_U8, encDither DITHER_COLOR]
-  | "R16G16B16A16_FLOAT" => [encUni EXACT_U8, encDither DITHER_ALL]
-  | "R32_FLOAT" => [encCopy ⟨.gray, .f32⟩, encConv .f32, uni]
-  | "R32G32_FLOAT" => [encUni EXACT_F32]
-  | "R32G32B32_FLOAT" => [encCopy ⟨.rgb, .f32⟩, encConv .f32, uni]
-  | "R32G32B32A32_FLOAT" => [encCopy ⟨.rgba, .f32⟩, encConv .f32, uni]
-  | "AYUV" | "Y410" => [uni, encDither DITHER_ALL]
-  | "Y416" => [encUni EXACT_U8, encDither DITHER_ALL]
-  | "R1_UNORM" => [uni, encDither DITHER_COLOR]
-  | "R8G8_B8G8_UNORM" | "G8R8_G8B8_UNORM" | "Y210" | "Y216" => [encUni EXACT_U8]
-  | "UYVY" | "YUY2" | "NV12" | "P010" | "P016" => [uni]
-  | _ => []
-
 def b2n (b : Bool) : Nat := if b then 1 else 0
 
 def runC12 (line : String) : String :=
@@ -193,6 +155,11 @@ def runC12 (line : String) : String :=
         let one := Inp.f32 0x3F800000
         let zero := Inp.f32 0
         let px := (Array.range (w * h)).map fun i =>
+          let x := i % w; let y := i / w
+          let i := match f.cls with
+            | .rgbg | .subYuv _ => y * ((w + 1) / 2) + x / 2
+            | .bi _ => (y / 2) * (w / 2) + x / 2
+            | _ => i
           let g (j : Nat) := Inp.f32 va[(i * nch + j) % va.size]!
           let v : Array Inp := match fam with
             | "g" => #[g 0, zero, zero, one]
